@@ -1,7 +1,7 @@
 """Registry entry, manifest texts for C09."""
 
 ENTRY = {'parts': [{'scenario': 'scenarios.s_pool', 'chunk': 6}],
-         'quick': {'runs': 2500, 'budget': 55}, 'thorough': {'runs': 150000, 'budget': 1200}}
+         'quick': {'runs': 2500, 'budget': 40}, 'thorough': {'runs': 150000, 'budget': 1200}}
 
 TEXT = {'level': 'Seeded search over exit/grow/shrink/submission histories: maxtasksperchild 1-5, memory limit with '
           'simulated RSS, grow, shrink, crashes. Oracle: after every completed supervision pass (hook on '
